@@ -287,6 +287,42 @@ func runC20Deep(r *Run, rng *Rng, replay string) {
 	}
 	c20AfterBuild, c20AfterRun = nil, nil
 
+	// ---- underscores in numbers: %d / %x stop before '_', %v accepts Go-syntax underscores, Atoi rejects them
+	inst := func(line string) {
+		var out string
+		fault := catch(func() { out = "I" + c20CanonReal(tracereader.VerifExtractInst(line)) })
+		if fault != "" {
+			out = "fault:" + c20Fault(fault)
+		}
+		r.Case("c20 inst "+line, out)
+		r.Count("inst:underscore")
+	}
+	for _, line := range []string{
+		"0010 0000_0001 0 MOV 0 0 0", "00_10 00000001 0 MOV 0 0 0", "0010 00000001 1_0 R1 MOV 0 0 0",
+		"0010 00000001 0 MOV 1_ R3 0 0", "0010 00000001 0 MOV 0 4 0 0x7f_b0 7", "0010 00000001 0 MOV 0 4 0 0x7f__b0 7",
+		"0010 00000001 0 MOV 0 4 0 0x_7f 7", "0010 00000001 0 MOV 0 4 0 1_000 7", "0010 00000001 0 MOV 0 4 0 _1 7",
+		"0010 00000001 0 MOV 0 4 0 0_7 7", "0010 00000001 0 MOV 0 4 0 1_ 7", "0010 00000001 0 MOV 0 4 0 0x7f_ 7",
+		"0010 00000001 0 MOV 0 4 1_ 0x10 8 7", "0010 00000001 0 MOV 0 4_ 0 0x10 7", "0010 00000001 0 MOV 0 0 1_0",
+		"0010 00000001 0 MOV 0 4 2 0x10 4 1_0 -4 7", "0010 00000001 0 MOV 0 4 0 -0x1_0 7", "0010 00000001 0 MOV 0 4 0 0b1_01 7",
+		"0010 00000001 0 MOV 0 4 0 0o7_7 7", "0010 00000001 0 MOV 0 4 0 0_ 7", "_ _ _ _ _ _ _",
+	} {
+		inst(line)
+	}
+	nUs := 400
+	if r.Tier == "thorough" {
+		nUs = 6000
+	}
+	for i := 0; i < nUs; i++ {
+		toks := strings.Fields(c20GenInst(rng, int64(rng.Intn(4096)*16)).render())
+		for k := rng.Range(1, 2); k > 0; k-- {
+			j := rng.Intn(len(toks))
+			t := toks[j]
+			pos := rng.Intn(len(t) + 1)
+			toks[j] = t[:pos] + "_" + t[pos:]
+		}
+		inst(strings.Join(toks, " "))
+	}
+
 	// ---- the register table: SASS registers are R0..R254 (+ RZ = R255)
 	for _, line := range []string{
 		"0010 00000001 1 R32 MOV 1 R2 0 0",
